@@ -141,11 +141,12 @@ def inject(file_ast, order, values):
 
     def fn(tok):
         if isinstance(tok, types.Number):
-            m = re.fullmatch(r"\^D(9\d\d\d)", tok.representation)
+            m = re.fullmatch(r"(-?)\^D(9\d\d\d)", tok.representation)
             if m:
-                idx = int(m.group(1)) - PH_BASE
+                idx = int(m.group(2)) - PH_BASE
                 if 0 <= idx < len(order):
-                    tok.value = values[order[idx]]
+                    v = values[order[idx]]
+                    tok.value = -v if m.group(1) else v
         elif isinstance(tok, (types.QuotedString, types.CharLiteral)):
             tok.string = subst_string(tok.string)
 
